@@ -91,3 +91,12 @@ def oracle(case, irecs, mrecs):
     return fails
 
 FAMILIES = [dict(name='cm', harness='drv_cm.cpp', extract='Extract_cm.v', model='model_cm', gen=gen, oracle=oracle)]
+
+MANIFEST = dict(
+    level_text=('Theorems (coq/Properties_C14.v, axiom-free) for ANY family of row hash functions and any update sequence: every cell holds exactly '
+                'the weight hashed to it, estimate >= true weight and <= total for non-negative weights, total = sum |w|, merge = sketch of the '
+                'concatenated streams, self/incompatible merges refused. The model is tied to count_min_impl.hpp by running both on the same '
+                'generated scripts (cells, estimates, totals compared exactly) and by evaluating the property predicates on the implementation outputs.'),
+    level_note=('Trusted: Coq kernel; hand-written model validated only by the correspondence runs; row seeds read from the object; Murmur model; '
+                'int64 overflow not modelled; upper bound (floating point) only checked as est <= ub on the implementation; confidence clause statistical, not claimed.'),
+    design_ref='DESIGN.md section 5 C14')
